@@ -19,7 +19,7 @@ RULE = ("well-formed reply-typed messages: ARP op 2 (+3,4,8,9), ICMP echo reply,
         "SYN|ACK with every ECN/URG decoration, RST and RST|ACK (bare, and carrying data with an acknowledgement number equal to the flow's cookie + 1, on fresh and on validated flows), DNS messages with QR=1 (0..3 answers, with/without "
         "questions, every opcode), STUN success/error responses and indications with and without magic cookie (UDP, and on a TCP "
         "flow already identified as STUN), SMB1/SMB2 messages with the reply flag for the negotiate / session-setup commands, "
-        "ONC-RPC replies over UDP and TCP; and the responder's own replies of these kinds (ARP reply, echo replies, NA, SYN-ACK, "
+        "ONC-RPC replies over UDP and TCP (boundary transaction ids included); STUN / RPC / SMB1 reply-typed messages over TCP whose body embeds the tail of a request and which are cut so that the embedded bytes start the third segment (1 | >= 28 | rest); and the responder's own replies of these kinds (ARP reply, echo replies, NA, SYN-ACK, "
         "DNS/STUN/SMB/RPC/HTTP responses elicited by the shared request generators), re-addressed as a switch would deliver them. "
         "Each must be met with silence unless the same bytes are acceptable as a request of another protocol (reference matcher / "
         "wide DNS model), in which case the reply must not be of the message's own protocol; every reflection chain is followed "
@@ -234,8 +234,11 @@ def handmade(ctx, cfg, lab, peer):
         xid = (rng.choice([0x01, 0x7A, 0x99]) << 24) | rng.getrandbits(24)
         if rng.random() < 0.5:
             xid = (xid & 0xFFFF7FFF) | (rng.getrandbits(1) << 15)       # third byte's top bit: the datagram does / does not read as a DNS response
+        if rng.random() < 0.35:
+            # boundary and arbitrary transaction ids (an xid of 0 makes the words of a reply read like those of a call one word later)
+            xid = rng.choice([0, 0, 1, 2, 0xFFFFFFFF, 0x80000000, 0x00000100, rng.getrandbits(32), rng.getrandbits(32)])
         # accepted replies with results of every size (GETPORT: one word; NFS / mount results: many small words), denied replies
-        results = rng.choice([b"", struct.pack("!II", 2, 4), struct.pack("!I", 111), bytes(16), struct.pack("!IIII", 0, 0, 0, 0) + bytes(rng.randrange(0, 64) & ~3),
+        results = rng.choice([b"", struct.pack("!II", 2, 4), struct.pack("!I", 111), bytes(16), bytes(12), bytes(8), bytes(4 * rng.randrange(1, 12)), struct.pack("!IIII", 0, 0, 0, 0) + bytes(rng.randrange(0, 64) & ~3),
                               b"".join(struct.pack("!I", rng.choice([0, 0, 1, 2, 4, 8])) for _x in range(rng.randrange(4, 24)))])
         body = struct.pack("!IIIIII", xid, 1, 0, 0, 0, rng.choice([0, 0, 0, 1, 2, 3])) + results
         if rng.random() < 0.15:
@@ -330,6 +333,53 @@ def arp_with_selfips(ctx):
             chain(ctx, cfg, None, gen.rnd_mac(rng), "arp", first=r)
 
 
+def spliced(ctx, lab):
+    """A reply-typed message M that shares its first byte with a request R and carries the rest of R inside its body, cut so
+    that the embedded bytes start a segment: M = M[:1] | M[1:1+L] | R[1:] + padding, L >= 28.  As a byte stream this is M - a
+    well-formed reply-typed message (whose body happens to hold those bytes) - and nothing else; a responder that matched
+    the third segment against what it kept of the first one would read R."""
+    rng = ctx.rng
+    L = rng.randrange(28, 60)
+    k = rng.randrange(3)
+    if k == 0:
+        R = stun.gen_request(rng, "magic_long")[0]
+        x = max(0, 1 + L - 24)
+        L = 23 + x
+        body = bytes(rng.getrandbits(8) for _ in range(x)) + R[1:]
+        body += bytes(-len(body) % 4)
+        M = stun.msg(rng.choice([0x0011, 0x0017, 0x0016, 0x0013]), stun.gen_tid(rng, True), stun.attr(0x0013, body))
+        kind = "stun"
+    elif k == 1:
+        R = rpc.record(rpc.gen_call(rng, prog=rpc.PMAP, vers=2, proc=rng.choice([0, 3, 4]))["msg"])
+        R = R[:4] + bytes([rng.choice([0x01, 0x7A, 0x99])]) + R[5:]
+        x = 1 + L - 28
+        res = bytes(rng.getrandbits(8) for _ in range(x)) + R[1:]
+        res += bytes(-len(res) % 4)
+        M = rpc.record(struct.pack("!IIIIII", (rng.choice([0x01, 0x7A, 0x99]) << 24) | rng.getrandbits(24), 1, 0, 0, 0, 0) + res)
+        kind = "rpc"
+    else:
+        q = smb.gen_request(rng, "smb1_neg")
+        R = q["payload"]
+        L = max(L, 40)
+        x = 1 + L - 39
+        data = bytes(rng.getrandbits(8) for _ in range(x)) + R[1:]
+        M = smb.nbss(smb.smb1_header(0x72, flags=0x98, mid=rng.getrandbits(16)) + b"\x00" + struct.pack("<H", len(data)) + data)
+        kind = "smb"
+    if M[:1] != R[:1] or M[1 + L:1 + L + len(R) - 1] != R[1:] or lab.identified(R, "tcp") in (None, sigref.NOMATCH):
+        ctx.stats["spliced_skipped"] += 1
+        return
+    if lab.ask(R, "tcp").rep is None:
+        return
+    reps = lab.ask_segments(M, [1, 1 + L])
+    ctx.stats["spliced_" + kind] += 1
+    ctx.nontrivial("spliced", kind, L, R[:40])
+    if reps is not None and any(r is not None for r in reps):
+        j = next(i for i, r in enumerate(reps) if r is not None)
+        ctx.violation("answered:%s:spliced" % kind, "a %s reply-typed message of %d bytes sent in three segments (1, %d, %d bytes) is answered at segment #%d with %s: the third segment, "
+                      "read as if it followed the first one, spells a request" % (kind, len(M), L, len(M) - 1 - L, j, reps[j][:24].hex()),
+                      observed=reps[j].hex()[:300], expected="silence", extra={"message": M.hex()[:600], "cuts": [1, 1 + L]})
+
+
 def shard(ctx, budget_s):
     rng = ctx.rng
     deadline = time.time() + budget_s
@@ -342,6 +392,8 @@ def shard(ctx, budget_s):
         peer = gen.rnd_mac(rng)
         handmade(ctx, cfg, lab, peer)
         bounced(ctx, cfg, peer)
+        for _ in range(6):
+            spliced(ctx, lab)
         if ctx.shard == 0 and len(ctx.samples) < 2:
             ctx.sample({"example": "DNS QR=1 message", "hex": (dns.header(1, 0x8180, 1, 1) + dns.question([b"a"]) + dns.rr([b"a"])).hex()})
         n += 1
